@@ -318,6 +318,17 @@ def main():
         samples.append(dict(known_finding=kf["what"], obligation=ob["msg"], schedule=ob["cex"]["schedule"][:40], nondets=ob["cex"]["nondets"]))
     if not samples:
         samples.append(dict(note="no reachability label registered", scenarios=[r["name"] for r in results]))
+    xsum = {}
+    for r in results:
+        for k, v in (r["stats"].get("xcheck") or {}).items():
+            if k == "disagreements":
+                xsum.setdefault(k, []).extend(v)
+            else:
+                xsum[k] = xsum.get(k, 0) + v
+    if xsum:
+        print("cross-solver: " + ", ".join("%s=%s" % (k, v if k != "disagreements" else len(v)) for k, v in sorted(xsum.items())))
+        for d in xsum.get("disagreements", []):
+            print("INCONCLUSIVE: property=%s cross-solver disagreement %s" % (prop, d))
     ev = dict(
         property_id=prop, tier=a.tier, seed=seed, level="model_checking",
         coverage=dict(
@@ -341,6 +352,7 @@ def main():
             queries=sum(r["stats"].get("solver_checks", 0) for r in results),
             solver_s=round(sum(r["stats"].get("solver_s", 0) for r in results), 2),
             explanation=getattr(mod, "EXPLANATION", ""),
+            **({"cross_solver": xsum} if xsum else {}),
         ),
         assumptions=getattr(mod, "ASSUMPTIONS", []) + [
             "runtime model of gobmc (channels, select, sync, atomic, context) as in DESIGN.md 2.5",
